@@ -284,8 +284,10 @@ def run_main(sess, op):
     # snapshot of variable lists before main() (public API), for reference models
     for h, s in sectors_of_model(sess, mh):
         sess.pre_vars[h] = list(s.GetVariables())
+    import contextlib
+    import io
     try:
-        with warnings.catch_warnings():
+        with warnings.catch_warnings(), contextlib.redirect_stdout(io.StringIO()):
             warnings.simplefilter('ignore')
             if op.get('base_file_name') is not None:
                 txt = m.main(op['base_file_name'])
